@@ -96,11 +96,15 @@ def process_error_sources(container_obj, yaml_doc):
     # lists of the above are also valid, if the error object is not a list
     if isinstance(container_obj, XYContainer):  # also applies for XYParamModel
         _xerrs = yaml_doc.pop("x_errors", [])
+        if isinstance(_xerrs, dict):  # a single error object instead of a list of them
+            _xerrs = [_xerrs]
         if isinstance(_xerrs, (int, float, str)):
             _xerrs = [_xerrs] * container_obj.size
         if len(_xerrs) > 0 and isinstance(_xerrs[0], (int, float, str)):
             _xerrs = [_xerrs]
         _yerrs = yaml_doc.pop("y_errors", [])
+        if isinstance(_yerrs, dict):  # a single error object instead of a list of them
+            _yerrs = [_yerrs]
         if not isinstance(_yerrs, list):
             _yerrs = [_yerrs] * container_obj.size
         if len(_yerrs) > 0 and isinstance(_yerrs[0], (int, float, str)):
@@ -109,6 +113,8 @@ def process_error_sources(container_obj, yaml_doc):
         _axes = [0] * len(_xerrs) + [1] * len(_yerrs)  # 0 for 'x', 1 for 'y'
     else:
         _errs = yaml_doc.pop("errors", [])
+        if isinstance(_errs, dict):  # a single error object instead of a list of them
+            _errs = [_errs]
         if not isinstance(_errs, list):
             _errs = [_errs] * container_obj.size
         if len(_errs) > 0 and isinstance(_errs[0], float):
